@@ -38,12 +38,12 @@ def all_files(repo):
 
 # (file, function, kind, normalised site text) -> how it is discharged
 SITES = {
-    ("cfg/analysis.py", "ForwardAnalysis.run", "pop", "queue.pop()"): "C09: ForwardAnalysis.run result is the unique extremal solution for every pop order",
-    ("cfg/analysis.py", "BackwardAnalysis.run", "pop", "queue.pop()"): "C09: key sets unique for every pop order; the stored WITNESS block is a separate obligation below",
+    ("cfg/analysis.py", "ForwardAnalysis.run", "select", "min(queue, key=lambda bb: bb.idx)"): "the key is injective on the set: the blocks of one CFG have pairwise distinct indices (BaseCFG.new_bb numbers them); the result is moreover the unique extremal solution for every order (C09)",
+    ("cfg/analysis.py", "BackwardAnalysis.run", "select", "min(queue, key=lambda bb: bb.idx)"): "the key is injective on the set: the blocks of one CFG have pairwise distinct indices; key sets are moreover unique for every order (C09)",
     ("cfg/cfg.py", "BaseCFG.update_reachable", "pop", "queue.pop()"): "proved here: least set closed under successors, for every pop order",
     ("compiler/core.py", "insert_drops", "next-iter", "next(iter(hugr.linked_ports(port)), None)"): "emptiness test only (compared with None)",
     ("checker/expr_checker.py", "check_call", "select", "min(ty.unsolved_vars - subst.keys(), key=lambda v: v.id)"): "the key is injective on the set: existential variables carry globally unique ids (ExistentialVar._fresh_id)",
-    ("checker/func_checker.py", "check_nested_func_def", "next-iter", "next(iter(captured.keys()))"): "captured is a dict filled in sorted-name order (obligation captured-variables-sorted below): first key = smallest name",
+    ("checker/func_checker.py", "check_nested_func_def", "next-iter", "next(iter(captured.keys()))"): "captured is a dict filled from the liveness result at the entry block, whose key order is a function of the CFG alone since the worklists are deterministic (obligations below)",
     ("checker/modifier_checker.py", "check_modified_block", "next-iter", "next(iter(loops))"): "loops is a list in AST visit order (ast_util.find_nodes returns AstSearcher.found, a list)",
     ("checker/modifier_checker.py", "check_modified_block", "next-iter", "next(iter(cfg_bb.vars.assigned.items()))"): "VariableStats.assigned is a dict filled in statement order by VariableVisitor",
     ("checker/unitary_checker.py", "check_invalid_under_dagger", "next-iter", "next(iter(loops))"): "list in AST visit order (find_nodes)",
@@ -322,9 +322,9 @@ def bounded(chk, i):
     from pyvc.report import run_replay
     from .C10_oracle import CHILD
     scheds = list(range(6)) if chk.tier != "thorough" else list(range(12))
-    os.environ["PYTHONHASHSEED"] = "0"
     runs = {}
     for sc in scheds:
+        os.environ["PYTHONHASHSEED"] = str(sc)
         res = run_replay(CHILD, {"schedule": sc, "chunk": i, "nchunks": NCH_B}, chk.repo, timeout=3000)
         if "outcomes" not in res:
             chk.undecided(f"bounded[{i}/{NCH_B}]:schedules", f"oracle run failed (schedule {sc}): " + json.dumps(res)[:600])
@@ -339,7 +339,7 @@ def bounded(chk, i):
     n_h = sum(1 for v in base.values() if v.startswith("hugr:"))
     n_e = sum(1 for v in base.values() if v.startswith("error:"))
     n_c = sum(1 for v in base.values() if v.startswith("crash:"))
-    o = chk.bounded_result(f"bounded[{i}/{NCH_B}]:same-HUGR-bytes/same-error-class-and-variable-under-every-worklist-schedule(slice {i} of {NCH_B}; {len(scheds)} schedules)", bad is None, len(base) * len(scheds),
+    o = chk.bounded_result(f"bounded[{i}/{NCH_B}]:same-HUGR-bytes/same-error-class,variable-and-location-in-every-interpreter-run(slice {i} of {NCH_B}; {len(scheds)} runs differing in hash seed and heap layout)", bad is None, len(base) * len(scheds),
                            detail=(f"{bad['program']}: schedule {bad['schedule_a']} gives {bad['outcome_a']}, schedule {bad['schedule_b']} gives {bad['outcome_b']}" if bad else
                                    f"{len(base)} programs ({n_h} compiled, {n_e} rejected, {n_c} crashed) x {len(scheds)} schedules agree"), witness=bad, func="guppylang_internals.cfg.analysis:BackwardAnalysis.run")
     if bad:
@@ -353,27 +353,26 @@ print(json.dumps({"violates": _o.get(I_["program"]) != I_["expected"], "program"
 '''
 
 
-def captured_sorted(chk):
-    """The variables a nested function / a modifier block captures become inputs of the lifted function
-    in the order they are collected.  They are collected from the liveness result at the entry block,
-    whose KEY ORDER depends on the worklist schedule (shown by the bounded replay below on the real
-    LivenessAnalysis): the collection must therefore go through sorted()."""
-    for rel, fn in (("checker/func_checker.py", "check_nested_func_def"), ("checker/modifier_checker.py", "check_modified_block")):
-        tree = ast.parse(open(os.path.join(chk.repo, PKG, rel)).read())
-        f = next(n for n in ast.walk(tree) if isinstance(n, ast.FunctionDef) and n.name == fn)
-        iters = [g.iter for n in ast.walk(f) if isinstance(n, (ast.DictComp, ast.ListComp, ast.SetComp, ast.GeneratorExp)) for g in n.generators] + [n.iter for n in ast.walk(f) if isinstance(n, ast.For)]
-        live = [it_ for it_ in iters if "live_before[" in ast.unparse(it_)]
-        ok = bool(live) and all(isinstance(it_, ast.Call) and isinstance(it_.func, ast.Name) and it_.func.id == "sorted" for it_ in live)
-        chk.record(f"{fn}:captured-variables-are-collected-in-sorted-order(every iteration over live_before[...] goes through sorted())", ok, str([ast.unparse(x)[:80] for x in live]),
-                   func=f"guppylang_internals.{rel[:-3].replace('/', '.')}:{fn}", backend="structural").replay_script = REPLAY_CAPTURED
+def worklist_deterministic(chk):
+    """ForwardAnalysis.run / BackwardAnalysis.run (cfg/analysis.py): which block is processed next is a
+    function of the CFG alone — the block of smallest index among the queued ones — and not of set
+    iteration order (blocks hash by address).  The SET of facts computed is order-independent anyway
+    (C09); the witness block stored per live variable and the key order of the result are not, and
+    diagnostics are built from them."""
+    tree = ast.parse(open(os.path.join(chk.repo, PKG, "cfg/analysis.py")).read())
+    for cls in ("ForwardAnalysis", "BackwardAnalysis"):
+        c = next(n for n in ast.walk(tree) if isinstance(n, ast.ClassDef) and n.name == cls)
+        f = next(n for n in c.body if isinstance(n, ast.FunctionDef) and n.name == "run")
+        src = ast.unparse(f)
+        pops = [ast.unparse(n) for n in ast.walk(f) if isinstance(n, ast.Call) and isinstance(n.func, ast.Attribute) and n.func.attr in ("pop", "popitem") and not n.args]
+        picks = [ast.unparse(n.value) for n in ast.walk(f) if isinstance(n, ast.Assign) and len(n.targets) == 1 and ast.unparse(n.targets[0]) == "bb"]
+        ok = not pops and picks == ["min(queue, key=lambda bb: bb.idx)"] and "queue.remove(bb)" in src
+        chk.record(f"{cls}.run:the-next-block-is-the-queued-block-of-smallest-index(no-set.pop)", ok, f"pops {pops}, picks {picks}", func=f"guppylang_internals.cfg.analysis:{cls}.run", backend="structural")
     from pyvc.report import run_replay
-    for o in chk.obls:
-        if getattr(o, "replay_script", None) and o.status == "refuted":
-            res = run_replay(REPLAY_CAPTURED, {}, chk.repo, timeout=600)
-            o.replay = {"confirmed": bool(res.get("violates")), "script": REPLAY_CAPTURED, "input": {}, "native": res}
     res = run_replay(REPLAY_KEYORDER, {}, chk.repo, timeout=300)
-    chk.record("LivenessAnalysis:key-order-of-the-result-DOES-depend-on-the-pop-order(why consumers must not rely on it)", bool(res.get("violates")), str(res)[:300], kind="reachability",
-               func="guppylang_internals.cfg.analysis:BackwardAnalysis.run")
+    o = chk.record("LivenessAnalysis:witness-blocks-and-key-order-are-the-same-whatever-set.pop-would-have-chosen(4-block diamond, all 24 forced orders on the real classes)", not res.get("violates"), str(res)[:300],
+                   func="guppylang_internals.cfg.analysis:BackwardAnalysis.run", kind="bounded", backend="native enumeration of forced set.pop orders")
+    o.replay = {"confirmed": bool(res.get("violates")), "script": REPLAY_KEYORDER, "input": {}, "native": res}
 
 
 REPLAY_KEYORDER = r'''
@@ -399,51 +398,13 @@ for perm in itertools.permutations(range(4)):
     stats = {bbs[i]: VariableStats(used=dict(uses[i])) for i in range(4)}
     Sched.order = list(perm)
     r = A.LivenessAnalysis(stats).run(bbs)
-    outs.setdefault(tuple(r[bbs[0]]), perm)
-print(json.dumps({"violates": len(outs) > 1, "key_orders_at_entry": {str(k): list(v) for k, v in outs.items()}}))
+    outs.setdefault((tuple(r[bbs[0]]), tuple(v.idx for v in r[bbs[0]].values())), perm)
+print(json.dumps({"violates": len(outs) > 1, "key_orders_and_witnesses_at_entry": {str(k): list(v) for k, v in outs.items()}}))
 '''
-
-REPLAY_CAPTURED = r'''
-import guppy_plainbool
-import os, tempfile, importlib.util
-import guppylang
-guppylang.enable_experimental_features()
-import guppylang_internals.cfg.analysis as A
-import hugr.ops as ops
-class Sched(set):
-    mode = "min"
-    def pop(self):
-        b = (min if Sched.mode == "min" else max)(self, key=lambda x: x.idx)
-        self.remove(b); return b
-A.set = Sched
-SRC = """
-from guppylang import guppy
-@guppy
-def main(b: bool) -> int:
-    alpha = 1; beta = 2.5; gamma = True
-    def inner(k: int) -> int:
-        if k > 0:
-            return alpha + k
-        elif k < -3:
-            return int(beta) + (1 if gamma else 0)
-        return alpha + (2 if gamma else 0)
-    return inner(2)
-"""
-outs = {}
-for mode in ("min", "max"):
-    Sched.mode = mode
-    d = tempfile.mkdtemp(dir=os.environ.get("TMPDIR", "/var/tmp")); fn = os.path.join(d, f"capm_{mode}.py"); open(fn, "w").write(SRC)
-    spec = importlib.util.spec_from_file_location(f"capm_{mode}", fn); m = importlib.util.module_from_spec(spec); sys.modules[f"capm_{mode}"] = m
-    spec.loader.exec_module(m)
-    mod = m.main.compile_function().modules[0]
-    outs[mode] = [[str(t) for t in mod[n].op.inputs] for n in mod if isinstance(mod[n].op, ops.FuncDefn) and mod[n].op.f_name == "inner"]
-print(json.dumps({"violates": outs["min"] != outs["max"], "inputs_of_the_lifted_function_by_schedule": outs}))
-'''
-
 
 def static_part(chk):
     e = mk_engine(chk)
-    captured_sorted(chk)
+    worklist_deterministic(chk)
     # ------------------------------------------------------------------ 1. site scan
     found = []
     banned = []
